@@ -106,3 +106,42 @@ def conditions_to_arithm(cx):
     cx.set_hook('empty_kinds', {'new_assignments': DSeq(DRef())})
     cx.invariant(0, lambda st: z3.BoolVal(True))
     cx.ensures(lambda st, r: z3.BoolVal(True))
+
+
+@contract('program/transformer/loop_guard_transformer.py', 'LoopGuardTransformer.execute', ['C09', 'C02'])
+def loop_guard_execute(cx):
+    """while G: body  ==>  while true: if (G and collapsed-if conditions): body'.  ONLY the (simplified) source guard G carries the loop-guard
+    mark -- the condition that decides termination -- never the conjunction with collapsed if-conditions (repaired defect D6); with the
+    trivial-guard option the guard is replaced by true and nothing else changes."""
+    trivial = cx.bool('trivial_guard'); guard = cx.ref('loop_guard'); body = cx.ref('loop_body')
+    prog = cx.obj('Program', loop_guard=guard, loop_body=body)
+    cx.param(self=cx.obj('LoopGuardTransformer', trivial_guard=trivial), program=prog)
+    ISTRUE = z3.Function('is_TrueCond', REF, B); SIMP = z3.Function('simplified', REF, REF); AND = z3.Function('and_of', REF, REF, REF)
+    stm, cond = cx.ref('collapsed_statements'), cx.ref('collapsed_condition')
+    cx.call('_collapse_first_level_ifs', lambda ex, st, r, a, kw: VTuple(stm, cond), trusted='_collapse_first_level_ifs: statements and conjunction of the collapsed single top-level ifs')
+    cx.call('simplify', lambda ex, st, r, a, kw: V('ref', SIMP(r.t)), trusted='Condition.simplify(): equivalent condition')
+    cx.call('And', lambda ex, st, r, a, kw: V('ref', AND(a[0].t, a[1].t)))
+
+    def true_cond(ex, st, r, a, kw):
+        t = ex.fresh(REF, 'truecond'); ex.axioms.append(ISTRUE(t)); return V('ref', t)
+    cx.call('TrueCond', true_cond)
+    cx.isinstance(lambda ex, st, o, c: ISTRUE(o.t))
+    cx.call('IfStatem', lambda ex, st, r, a, kw: V('ref', z3.Function('if_statem', REF, REF, REF)(a[0].t[0] if a[0].kind == 'seq' else a[0].t, a[1].t[0] if a[1].kind == 'seq' else a[1].t)))
+    cx.st.vars['$marked'] = V('none')
+
+    def ref_store(ex, st, o, attr, v):
+        if attr == 'is_loop_guard':
+            ex.need(st, z3.And(truthy(v), o.t == SIMP(guard.t)), 'guard_mark.on_source_guard_only@0', 'ensures')
+            st.vars['$marked'] = o
+    cx.set_hook('ref_store', ref_store)
+
+    def post(st, r):
+        lg = st.field(prog, 'loop_guard'); lb = st.field(prog, 'loop_body')
+        full = SIMP(AND(SIMP(guard.t), cond.t))
+        wrapped = z3.Function('if_statem', REF, REF, REF)(full, stm.t)
+        non_trivial = z3.And(ISTRUE(lg.t), z3.BoolVal(st['$marked'].kind == 'ref'),
+                             z3.If(ISTRUE(full), lb.t == body.t if lb.kind == 'ref' else z3.BoolVal(False),
+                                   (lb.t[0] == wrapped) if lb.kind == 'seq' else z3.BoolVal(False)))
+        triv = z3.And(ISTRUE(lg.t), z3.BoolVal(lb.kind == 'ref') if lb.kind != 'ref' else lb.t == body.t)
+        return z3.If(trivial.t, triv, non_trivial)
+    cx.ensures(post)
